@@ -427,6 +427,15 @@ def reserved_prefix(c):
     return False
 
 
+def two_prefixes(c):
+    """the left root binds two prefixes (or the default namespace and a prefix) to one URI"""
+    try:
+        vals = list(etree.fromstring(c["left"]).nsmap.values())
+        return len(vals) != len(set(vals))
+    except Exception:  # noqa
+        return False
+
+
 def repeated_formatting(c):
     """text_tags and formatting_tags are non-empty and some formatting element, by its serialisation (the key of its
     placeholder: etree.tounicode without the tail), occurs more than once across the text-tag content of the two
@@ -463,6 +472,8 @@ def key_C08(c, msg=""):
         return "duplicate-xml-id-in-output"
     if reserved_prefix(c):
         return "reserved-ns-prefix-on-root"
+    if two_prefixes(c):
+        return "two-prefixes-one-uri-on-left-root"
     if c["cfg"]["replace"] and c["cfg"]["tt"]:
         return "use_replace-with-text_tags"
     if c.get("exc") in ("AssertionError", "IndexError") and repeated_formatting(c):
@@ -508,7 +519,9 @@ def oracle_proj(c, mode):
     if nf_eq(got, want):
         return None, None
     key = None
-    if cfg["replace"] and cfg["tt"]:
+    if two_prefixes(c):
+        key = "two-prefixes-one-uri-on-left-root"
+    elif cfg["replace"] and cfg["tt"]:
         key = "use_replace-with-text_tags"
     elif has_comment_tail(c["left"], c["right"]) and nf_eq(got, project_ref(strip_comments_keep(doc, False), cfg)):
         key = "comment-tail-dropped"
@@ -857,6 +870,21 @@ RESERVED_STREAM = [
 ]
 
 
+TWOPFX_STREAM = [
+    ('<r xmlns:p="u" xmlns:q="u"><q:x/></r>', '<r xmlns:p="u" xmlns:q="u"><q:x a="1"><q:y/></q:x></r>'),
+    ('<r xmlns:p="u" xmlns:q="u"><p:x/><q:x/></r>', '<r xmlns:p="u" xmlns:q="u"><p:x/><q:x a="1"/></r>'),
+    ('<r xmlns="u" xmlns:q="u"><x/><q:x/></r>', '<r xmlns="u" xmlns:q="u"><x/><q:x a="1"/></r>'),
+    ('<r xmlns:p="u" xmlns:q="u"><p:x/><q:x>t</q:x></r>', '<r xmlns:p="u"><p:x/><p:x>t2</p:x></r>'),
+]
+
+
+def gen_twopfx():
+    """the left root binds two prefixes to one URI: open finding 'two-prefixes-one-uri-on-left-root' (getpath counts
+    siblings by prefix, XPath by URI); outside the model, which knows one prefix per URI"""
+    return [{"kind": "reserved", "left": l, "right": r, "cfg": {"normalize": WS_NONE, "replace": False, "tt": [], "fmt": []},
+             "opts": {}, "late": False} for l, r in TWOPFX_STREAM]
+
+
 def gen_reserved():
     """documents whose root binds lxml's own prefix ns<k>: open finding 'reserved-ns-prefix-on-root'; outside the model
     (which assumes that the only namespace declarations are the root's and the formatter's)"""
@@ -1006,6 +1034,7 @@ def gen_inputs(run, rng):
     nexh = len(cases)
     cases += gen_known()
     cases += gen_reserved()
+    cases += gen_twopfx()
     cases += gen_labelled()
     cases += gen_texts(rng, quick)
     cases += gen_prefixes(rng, 30 if quick else 300)
